@@ -135,8 +135,8 @@ func runC05(c *Ctx) {
 	anch := anchFamily(4, false)
 	land := landFamily()
 	corpus := corpusPatterns()
-	anchProf := profile{"ANCH {a,\\n,c}", map[rune]rune{'b': '\n'}, []rune{'a', 'b', 'c'}}
-	nwbNl := profile{"NWB {a,\\n,c}", map[rune]rune{'N': '\n'}, []rune{'a', 'N', 'c'}}
+	anchProf := profile{name: "ANCH {a,\\n,c}", m: map[rune]rune{'b': '\n'}, input: []rune{'a', 'b', 'c'}}
+	nwbNl := profile{name: "NWB {a,\\n,c}", m: map[rune]rune{'N': '\n'}, input: []rune{'a', 'N', 'c'}}
 	add("CORE<=4", core4, "", profP0, 4)
 	add("CORE<=4", core4, "R", profP0, 4)
 	add("SEQ k<=2 anchored", seq2, "", profP0, 5)
